@@ -136,6 +136,7 @@ def run_target(t, timeout_ms=None):
             else:
                 res["undecided"].append({"obligation": "%s.%s" % (t.name, clause), "reason": "z3 unknown"})
         res["notes"].extend(sorted(set("havoc: " + h.split("$")[0] for h in ex.havocs_used)))
+        res["notes"].extend(sorted(set("ASSUMED loop summary (not proved): " + a for a in getattr(ex, "assumed_summaries", []))))
     except Unsupported as e:
         res["status"] = "outside-subset"
         res["notes"].append("outside the pyvc subset: %s" % e)
